@@ -1,4 +1,4 @@
 CONSTANT Follow = FALSE
 SPECIFICATION Spec
-INVARIANTS Contained CrossingFails Export
+INVARIANTS Contained CrossingFails StagingRootRefused Export
 CHECK_DEADLOCK FALSE
